@@ -207,7 +207,7 @@ func (engC14) Gen(r *Rng, s *Script, idx int, tier string) {
 			if r.Chance(1, 2) {
 				s.Steps = append(s.Steps, Step{Op: "align", A: r.Intn(5), B: r.Intn(4)})
 			} else {
-				s.Steps = append(s.Steps, Step{Op: "skipable", A: r.Intn(5), B: r.Intn(3)})
+				s.Steps = append(s.Steps, Step{Op: "skipable", A: r.Intn(5), B: r.Pick([]int{2, 2, 2, 1, 1})})
 			}
 		case 3:
 			if r.Chance(1, 2) {
